@@ -62,6 +62,9 @@ class ChannelItem(EFLRItem, DimensionedItem):
         # need the attribute defined for representation code check
         self._cast_dtype: Union[numpy_dtype_type, None] = None
 
+        # long name set by default (to the channel's name) when the file was written - if not specified by the user
+        self._default_long_name: Union[str, None] = None
+
         self.long_name = EFLROrTextAttribute('long_name', object_class=LongNameSet)
         self.properties = PropertiesAttribute('properties')
         self.representation_code = ReprCodeAttribute(parent_eflr=self)
@@ -197,9 +200,11 @@ class ChannelItem(EFLRItem, DimensionedItem):
 
         self._check_axis_vs_dimension()
 
-        if not self.long_name.value:
+        if not self.long_name.value or self.long_name.value == self._default_long_name:
+            # (a long name which was taken from the channel's name at a previous write follows the current name)
             logger.debug(f"Long name of channel '{self.name}' not specified; setting it to to the channel's name")
             self.long_name.value = self.name
+            self._default_long_name = self.name
 
 
 class ChannelSet(EFLRSet):
